@@ -636,3 +636,8 @@ func vh_C15_L9_callback_is_never_invoked_under_a_lock() {
 	vassert(vLocksFree(a, s), "no lock is left held")
 	vcover("end")
 }
+
+// C15.L10: a failed blocking write under concurrent calls leaves the accounting exact (= C20.L9).
+func vh_C15_L10_failed_parked_write_under_concurrent_calls() {
+	vh_C20_L9_parked_write_fails_while_others_go_on()
+}
